@@ -290,6 +290,20 @@ Example ex_retry :
   /\ n_log (failed_attempt ex_peers ex_node (PAfterSinkClose, true)) = n_log ex_node
   /\ n_log (failed_attempt ex_peers ex_node (PAfterDeleteRange, true)) = [].
 Proof. vm_compute. auto. Qed.
+(* a load that every node refused sits in the log between the snapshot and later writes: it is an entry like any other,
+   recovery neither starts from it nor loses what precedes it *)
+Example ex_hist_rl : list (entry cmd) :=
+  [EOther; ECmd CSchema; ECmd (CReq false [SInsP 1; SInsC 1 1]); ECmd (CReq false [SInsP 2]); ECmd CLoadRejected; ECmd (CReq false [SInsC 2 2])].
+Example ex_node_rl := {| n_fk := true; n_snap := Some (3%nat, {| parents := [1]; children := [(1, 1)] |});
+                         n_first := 3%nat; n_log := skipn 2 ex_hist_rl; n_conf := [] |}.
+Example ex_wf_rl : wf ex_node_rl ex_hist_rl.
+Proof. split; cbn; auto. repeat split; auto; lia. Qed.
+Example ex_recover_rl :
+  match recover ex_node_rl ex_peers with
+  | Recovered nd' => contents nd' = {| parents := [1; 2]; children := [(1, 1); (2, 2)] |} /\ contents nd' = applied true ex_hist_rl
+  | Rejected => False
+  end.
+Proof. vm_compute. auto. Qed.
 (* with foreign keys off the same history keeps the dangling row *)
 Example ex_fk_off : applied false ex_hist = {| parents := [2; 3]; children := [(1, 1); (2, 99)] |}.
 Proof. vm_compute. reflexivity. Qed.
